@@ -88,11 +88,19 @@ def truncation_verdict(text, allopts, out):
         return None
     import re
     # the serializer rewrites line ends and drops blanks in front of them (outside what it takes for quoted text): compare modulo exactly that
-    norm = lambda t: re.sub(r'[ \t]*(\r\n|\r|\n)', '\n', t).rstrip(' \t')
+    # (and the blanks at the end of each statement, i.e. after a ';')
+    norm = lambda t: re.sub(r';[ \t]+', ';', re.sub(r'[ \t]*(\r\n|\r|\n)', '\n', t)).rstrip(' \t')
     try:
-        if norm(out) == norm(truncate_reference(text, allopts)):
+        # … and, for what the serializer does at statement ends (trailing whitespace of each statement, also after a trailing comment line), the
+        # reference is also built from the text as format() without options returns it
+        bases = [text]
+        try:
+            bases.append(sqlparse.format(text))
+        except Exception:
+            pass
+        if any(norm(out) == norm(truncate_reference(b, allopts)) for b in bases):
             return 'spec'
-        if norm(out) == norm(truncate_reference(text, allopts, quirk=True)):
+        if any(norm(out) == norm(truncate_reference(b, allopts, quirk=True)) for b in bases):
             return 'quirk'
     except Exception:
         return None
